@@ -50,3 +50,24 @@ package gorp
 //@   ensures  __in(d.state, key) && d.state[key].deleted
 //@   ensures  forall k K :: k != key ==> __in(d.state, k) == old(__in(d.state, k)) && d.state[k] == old(d.state[k])
 //@   modifies *
+
+//@ # ---------------------------------------------------------------- committed lookup index
+//@ spec func inB[K Key, E Entry[K], V comparable](l *LookupIndex[K, E, V], v V, k K) bool =
+//@   __in(l.forward, v) && (exists i int :: 0 <= i && i < len(l.forward[v]) && l.forward[v][i] == k)
+//@ # buckets are non-empty and duplicate free
+//@ spec func LB[K Key, E Entry[K], V comparable](l *LookupIndex[K, E, V]) bool =
+//@   l.forward != nil && l.reverse != nil &&
+//@   (forall v V :: __in(l.forward, v) ==> len(l.forward[v]) > 0) &&
+//@   (forall v V, i int, j int :: __in(l.forward, v) && 0 <= i && i < j && j < len(l.forward[v]) ==> l.forward[v][i] != l.forward[v][j])
+//@ # representation invariant: forward is exactly the inverse of reverse
+//@ spec func LI[K Key, E Entry[K], V comparable](l *LookupIndex[K, E, V]) bool =
+//@   LB(l) && (forall v V, k K :: inB(l, v, k) == (__in(l.reverse, k) && l.reverse[k] == v))
+
+//@ func (l *LookupIndex[K, E, V]) removeFromForward(key K, value V)
+//@   tparams K Key, E Entry[K], V comparable
+//@   requires LB(l)
+//@   ensures  LB(l)
+//@   ensures  forall v V, k K :: inB(l, v, k) == (old(inB(l, v, k)) && !(v == value && k == key))
+//@   modifies l.forward
+//@   loop 0 invariant len(keys) == len(l.forward[value]) && (forall j int :: 0 <= j && j < len(keys) ==> keys[j] == l.forward[value][j])
+//@   loop 0 invariant forall j int :: 0 <= j && j < __ri(0) ==> keys[j] != key
